@@ -6,7 +6,7 @@ import numlib, pyfmt
 
 PID = "C09"
 TARGETS = ["Run.vo", "Fmt_proofs.vo", "NonVacuous/C09.vo"]
-IMPORTS = "From VF Require Import Base Show Gen_Errors Lexer Response Conv Enum Run."
+IMPORTS = "From VF Require Import Base Show Gen_Errors Lexer Response Conv Enum Tree Scripted Run."
 ALLOWED_AXIOMS = []
 PROFILES = ["debug", "release"]
 RULE = ("integers: ALL i8/u8 values and a boundary-directed + random sample of 16/32/64-bit and pointer-size values in decimal; "
@@ -99,7 +99,18 @@ def generate(rng, tier):
         out += [sweep(rng.randrange(1 << 14) << 18, 1 << 18) for _ in range(32)]
     for n in (10, 200, 239, 240, 241, 254, 255, 256, 300, 1000):          # long extended texts and long custom messages in error items
         out.append(mk("E:p-200x" + hexs(b"e" * n))); out.append(mk("E:c105:" + hexs(b"m" * n))); out.append(mk("E:c-7:" + hexs(b'q"' * (n // 2)) + "x" + hexs(b'"' * n)))
-    return out + enum_cases() + block_headers(tier)
+    return out + enum_cases() + block_headers(tier) + many_items(tier)
+
+
+def many_items(tier):
+    """comma-joined data: one response unit with more elements than an 8-bit counter holds, emitted by a handler"""
+    import treegen
+    out = []
+    for n in (2, 255, 256, 257, 258, 300, 513):
+        sc = {1: ([], ["di%d" % (i % 10) for i in range(n)]), 2: ([], ["h" + hexs(b"TRAC")] + ["ds" + hexs(b"s%d" % (i % 7)) for i in range(n)]), 3: ([], ["dEp-%d" % (100 + i % 5) for i in range(n)])}
+        sub = [("L", b"TRAC", False, 1), ("L", b"HTRAC", False, 2), ("L", b"ERRS", False, 3)]
+        out.append({"line": treegen.case_line("v", sub, sc, [b"TRAC?", b"HTRAC?", b"ERRS?", b"TRAC?;ERRS?"]), "item": "many:"})
+    return out
 
 
 def block_headers(tier):
@@ -124,6 +135,7 @@ def case_of_line(l):
     if l.startswith("enumv "): return {"line": l, "item": "enum:"}
     if l.startswith("f32sweep "): return {"line": l, "item": "sweep:"}
     if l.startswith("blockhdr "): return {"line": l, "item": "blockhdr:"}
+    if l.startswith("tree "): return {"line": l, "item": "many:"}
     return mk(l.split(" ", 1)[1])
 
 
@@ -147,6 +159,9 @@ def coq_item(item):
 def coq_term(c):
     if c["line"].startswith("enumv "): return C20.coq_term(c)
     if c["line"].startswith(("f32sweep ", "blockhdr ")): return '"SKIP"'
+    if c["line"].startswith("tree "):
+        import treegen
+        return treegen.coq_term(c["line"])
     d, back = coq_item(c["item"])
     if d is None: return '"SKIP"'
     return "run_fmt %s %s" % (d, "None" if back is None else "(Some (%s))" % back)
@@ -212,6 +227,7 @@ def impl_oracle(c, r):
     if c["line"].startswith("enumv "): return C20.impl_oracle(c, r)
     if c["line"].startswith("f32sweep "): return None if r == "OK" else "f32 response does not denote the value formatted: " + r
     if c["line"].startswith("blockhdr "): return None if r == "OK" else "block header does not state the payload length: " + r
+    if c["line"].startswith("tree "): return None if r.startswith("OK") else "a response with many data elements failed: " + r[:80]
     f = r.split(" ")
     item = c["item"]; k, v = item.split(":", 1)
     if f[0].startswith("E"):
@@ -255,4 +271,5 @@ def distribution(cases, impl):
     d["f32_patterns_swept_in_harness"] = sum(int(c["line"].split(" ")[2]) for c in cases if c["line"].startswith("f32sweep "))
     d.pop("sweep", None)
     d["block_header_lengths"] = d.pop("blockhdr", 0)
+    d["units_with_hundreds_of_elements"] = d.pop("many", 0)
     return d
